@@ -36,6 +36,7 @@ type DeclResult struct {
 	Gofmt    bool     `json:"gofmt"`
 	Builds   bool     `json:"builds"`
 	BuildErr string   `json:"build_err,omitempty"`
+	Vet      string   `json:"vet,omitempty"` // "" not run, "ok", or the vet output
 	Values   []string `json:"values,omitempty"` // value S-expressions
 	Obs      []string `json:"obs,omitempty"`    // observed outcome per value
 	Extra    []string `json:"extra,omitempty"`  // per value: extra observations (allocs, mutation, ctx …)
@@ -618,8 +619,21 @@ func (r *runner) writeDriver(sc *Scenario, results []*DeclResult, mode string) {
 	pkg := "p" + sc.ID
 	has := func(m string) bool { return strings.Contains(","+mode+",", ","+m+",") }
 	var sb strings.Builder
-	sb.WriteString("package " + pkg + "\n\nimport (\n\t\"context\"\n\t\"errors\"\n\t\"fmt\"\n\t\"io\"\n\t\"math\"\n\t\"strconv\"\n\t\"strings\"\n\t\"testing\"\n\n\t\"scen/rt\"\n)\n\n")
+	sb.WriteString("package " + pkg + "\n\nimport (\n\t\"context\"\n\t\"errors\"\n\t\"fmt\"\n\t\"io\"\n\t\"math\"\n\t\"strconv\"\n\t\"strings\"\n\t\"testing\"\n\n\t\"github.com/sivchari/govalid\"\n\n\t\"scen/rt\"\n)\n\n")
+	sb.WriteString("var _ govalid.Validator\n")
 	sb.WriteString("var _ = math.Pi\nvar _ = strconv.Itoa\nvar _ = errors.New\nvar _ = context.Background\nvar _ = strings.Join\nvar _ = testing.AllocsPerRun\nvar _ = fmt.Sprint\nvar _ = rt.Repr\n\n")
+	if has("iface") {
+		sb.WriteString("// interface assertions (C08)\nvar (\n")
+		for _, dr := range results {
+			if dr.File == "" {
+				continue
+			}
+			T := dr.Decl
+			sb.WriteString("\t_ govalid.Validator = (*" + T + ")(nil)\n\t_ govalid.ContextValidator = (*" + T + ")(nil)\n")
+			sb.WriteString("\t_ func(*" + T + ") error = Validate" + T + "\n\t_ func(context.Context, *" + T + ") error = Validate" + T + "Context\n")
+		}
+		sb.WriteString(")\n\n")
+	}
 	sb.WriteString("func Run(w io.Writer) {\n")
 	for _, dr := range results {
 		if dr.File == "" {
@@ -736,6 +750,30 @@ func (r *runner) runAll(scs []*Scenario) []*DeclResult {
 				if c != 0 {
 					for _, dr := range all[sc.ID] {
 						dr.BuildErr = tail(o, 1200)
+					}
+				}
+				mu.Unlock()
+			}(sc)
+		}
+		wg.Wait()
+	}
+	if strings.Contains(","+r.mode+",", ",vet,") {
+		for _, sc := range scs {
+			if !buildOK[sc.ID] {
+				continue
+			}
+			wg.Add(1)
+			go func(sc *Scenario) {
+				defer wg.Done()
+				sem <- struct{}{}
+				defer func() { <-sem }()
+				o, c := r.cmd(r.mod(), "go", "vet", "./p"+sc.ID)
+				mu.Lock()
+				for _, dr := range all[sc.ID] {
+					if c == 0 {
+						dr.Vet = "ok"
+					} else {
+						dr.Vet = tail(o, 1200)
 					}
 				}
 				mu.Unlock()
